@@ -640,7 +640,7 @@ def means(ctx, f):
     # history shift of the means: offset[chan, :nmean-1] = offset[chan, 1:nmean]
     sh = [s for s in up_if[0].body if isinstance(s, ast.Assign) and astq.eq_text(s.targets[0], "offset[chan,:nmean-1]")]
     ctx.check(len(sh) == 1 and astq.eq_text(sh[0].value, "offset[chan,1:nmean]"), R, f, sh[0] if sh else MISSING(up_if[0]),
-              "older block means are shifted down by one before the new one is stored", "the block-mean history is not shifted as offset[chan, :nmean-1] = offset[chan, 1:nmean]")
+              "older block means are shifted down by one before the new one is stored", "the block-mean history is not shifted as offset[chan, :nmean-1] = offset[chan, 1:nmean]", structural=True)
     # truncating division on possibly negative sums
     R2 = "R-C13-c-division"
     for s in [rd_if[0], up_if[0]]:
@@ -696,9 +696,9 @@ def uniform_post(ctx, f):
                   "emission is %s" % (astq.text(stores[0].value) if stores else None))
         ni = [s for s in il[0].body if isinstance(s, ast.Assign) and astq.is_name(s.targets[0], "nitem")]
         ctx.check(bool(ni) and astq.in_texts(ni[0].value, ("blocksize*nchan", "nchan*blocksize",)), R, f, ni[0] if ni else MISSING(il[0]),
-                  "a block emits blocksize x nchan samples")
+                  "a block emits blocksize x nchan samples", structural=True)
     ch = [s for s in ast.walk(block) if isinstance(s, ast.Assign) and astq.is_name(s.targets[0], "chan")][-1]
-    ctx.check(astq.eq_text(ch.value, "(chan+1)%nchan"), R, f, ch, "channels are decoded round-robin", "channel advance is %s" % astq.text(ch.value))
+    ctx.check(astq.eq_text(ch.value, "(chan+1)%nchan"), R, f, ch, "channels are decoded round-robin", "channel advance is %s" % astq.text(ch.value), structural=True)
 
 
 def _loop_nodes(cfg, block):
@@ -769,7 +769,7 @@ def bitreader(ctx, f, R="R-C13-bitreader"):
     }
     joined = "\n".join(txt)
     for what, frag in need.items():
-        ctx.check(frag in joined, R, ug, ug.node, "uvar_get: " + what, "uvar_get no longer contains `%s` (%s)" % (frag, what))
+        ctx.check(frag in joined, R, ug, ug.node, "uvar_get: " + what, "uvar_get no longer contains `%s` (%s)" % (frag, what), structural=True)
     order = [i for i, t in enumerate(txt) if t == "nbitget-=1"]
     test = [i for i, t in enumerate(txt) if t.startswith("ifgbuffer&1<<nbitget")]
     ctx.check(bool(order) and bool(test) and order[0] < test[0], R, ug, ug.node, "uvar_get moves to the next bit before testing it")
@@ -777,9 +777,9 @@ def bitreader(ctx, f, R="R-C13-bitreader"):
     fb = prog.func("_sphere.fix_bitshift")
     ftxt = astq.text(fb.node).replace(" ", "")
     ctx.check("ifftype==TYPE_AU1:" in ftxt and "buffer[:nitem]=ULAW_OUTWARD[bitshift,buffer[:nitem]+128]" in ftxt, R, fb, fb.node,
-              "mu-law (AU1) samples are mapped back through ULAW_OUTWARD[bitshift, x + 128]")
-    ctx.check("elifbitshift:" in ftxt and "buffer<<=bitshift" in ftxt, R, fb, fb.node, "linear samples are shifted back up by bitshift")
-    ctx.check("elifftype==TYPE_AU2:" in ftxt and "NEGATIVE_ULAW_ZERO" in ftxt and "buffer[i]+129" in ftxt, R, fb, fb.node, "AU2 samples use the two-zero mu-law mapping")
+              "mu-law (AU1) samples are mapped back through ULAW_OUTWARD[bitshift, x + 128]", structural=True)
+    ctx.check("elifbitshift:" in ftxt and "buffer<<=bitshift" in ftxt, R, fb, fb.node, "linear samples are shifted back up by bitshift", structural=True)
+    ctx.check("elifftype==TYPE_AU2:" in ftxt and "NEGATIVE_ULAW_ZERO" in ftxt and "buffer[i]+129" in ftxt, R, fb, fb.node, "AU2 samples use the two-zero mu-law mapping", structural=True)
     calls = [c for c in astq.func_calls(f) if astq.is_name(c.func, "fix_bitshift")]
     ok = len(calls) == 1 and [astq.text(a).replace(" ", "") for a in calls[0].args] == ["cbuffer[nwrap:]", "blocksize", "bitshift", "ftype"]
     ctx.check(ok, R, f, calls[0] if calls else MISSING(f.node), "the fix-up is applied to the new block (cbuffer[nwrap:], blocksize samples) with the current shift and type")
@@ -801,11 +801,11 @@ def stream_header(ctx, f, R="R-C13-stream-header"):
               "the stream header is read in the order type, channels, block size, max LPC order, mean length, skip bytes",
               "header fields are read as %s; the shorten header order is ftype, nchan, blocksize, maxnlpc, nmean, nskip" % seq)
     txt = astq.text(f.node).replace(" ", "")
-    ctx.check("assertinpbuf[:4]==MAGIC" in txt and "struct.unpack('b',inpbuf[4:5].tobytes())" in txt, R, f, f.node, "magic 'ajkg' and a one-byte version precede the bit stream")
-    ctx.check("word_get.inpbuf=inpbuf[5:]" in txt, R, f, f.node, "the bit stream starts right after the version byte")
-    ctx.check("buffer=np.zeros((nchan,blocksize+nwrap),dtype=np.int32)" in txt, R, f, f.node, "per-channel history + block buffers start at zero, 32-bit")
-    ctx.check("offset=np.full((nchan,nblock),mean,dtype=np.int32)" in txt and "nblock=max(1,nmean)" in txt, R, f, f.node, "the running-mean history holds max(1, nmean) initial means per channel")
-    ctx.check("ifversion>1:lpcqoffset=V2LPCQOFFSET" in txt.replace("\n", ""), R, f, f.node, "version 2 adds the LPC rounding offset")
+    ctx.check("assertinpbuf[:4]==MAGIC" in txt and "struct.unpack('b',inpbuf[4:5].tobytes())" in txt, R, f, f.node, "magic 'ajkg' and a one-byte version precede the bit stream", structural=True)
+    ctx.check("word_get.inpbuf=inpbuf[5:]" in txt, R, f, f.node, "the bit stream starts right after the version byte", structural=True)
+    ctx.check("buffer=np.zeros((nchan,blocksize+nwrap),dtype=np.int32)" in txt, R, f, f.node, "per-channel history + block buffers start at zero, 32-bit", structural=True)
+    ctx.check("offset=np.full((nchan,nblock),mean,dtype=np.int32)" in txt and "nblock=max(1,nmean)" in txt, R, f, f.node, "the running-mean history holds max(1, nmean) initial means per channel", structural=True)
+    ctx.check("ifversion>1:lpcqoffset=V2LPCQOFFSET" in txt.replace("\n", ""), R, f, f.node, "version 2 adds the LPC rounding offset", structural=True)
     bs = [n for n in f.body_nodes() if isinstance(n, ast.Assign) and astq.is_name(n.targets[0], "blocksize") and isinstance(n.value, ast.Call)]
     pm = astq.parents(f)
     inloop = [n for n in bs if any(isinstance(a, ast.While) for a in astq.ancestors(pm, n))]
@@ -817,4 +817,4 @@ def stream_header(ctx, f, R="R-C13-stream-header"):
     ret = astq.returns_of(f)
     ctx.check(len(ret) == 1 and astq.is_name(ret[0].value, "sampsdone"), R, f, ret[0] if ret else MISSING(f.node), "the number of decoded sample frames is returned")
     inc = [n for n in f.body_nodes() if isinstance(n, ast.AugAssign) and astq.is_name(n.target, "sampsdone")]
-    ctx.check(len(inc) == 1 and astq.text(inc[0].value) == "blocksize", R, f, inc[0] if inc else MISSING(f.node), "each completed block (all channels) adds blocksize frames")
+    ctx.check(len(inc) == 1 and astq.text(inc[0].value) == "blocksize", R, f, inc[0] if inc else MISSING(f.node), "each completed block (all channels) adds blocksize frames", structural=True)
